@@ -924,7 +924,7 @@ func main() {
 			// cold cache, then the same request again in a new process (warm or still cold)
 			cell("cold, then again in a new process", st(true, 0, v.serve), st(true, 0, v.serve))
 			// warm: a previous process cached what the index describes; now the origin serves the variant
-			cell("warm cache from an earlier process", st(true, 0, v.idx), st(true, 0, v.serve), st(true, -1, v.serve))
+			cell("warm cache from an earlier process", st(true, 0, v.idx), st(true, 0, v.serve))
 			// warm, but the cache holds no uncompressed tar (written by an older apko, or pruned): rebuilt from the .dat.tar.gz
 			dropped := st(true, 0, v.serve)
 			dropped.DropTar = true
@@ -967,7 +967,7 @@ func main() {
 		}
 	}
 	// generated sequences over fresh builds
-	rounds := 40
+	rounds := 30
 	if *tier == "thorough" {
 		rounds = 400
 	}
